@@ -14,3 +14,7 @@ import Ypv.Props.C11
 #print axioms Ypv.MergeAt.mergeat_missing_created_scalar
 #print axioms Ypv.MergeAt.mergeat_creation_is_c09
 #print axioms Ypv.MergeAt.mergeat_rules_rebased
+#print axioms Ypv.MergeAt.mergeat_target_is_c05_merge
+#print axioms Ypv.MergeAt.set_value_keeps_iff
+#print axioms Ypv.MergeAt.retyped_iff
+#print axioms Ypv.MergeAt.mergeat_creation_exact
